@@ -41,7 +41,8 @@ class TrainSim(Sim):
               "evaluator_categorical", "callback_adversarial_mode_flip", "callback_logging", "real_dataloader", "list_loader", "model_with_batchnorm",
               "model_with_dropout", "second_fit_after_fault", "fault_in_forward", "fault_in_criterion", "fault_in_callback", "fault_in_transform",
               "test_call", "fit_twice", "adam", "sgd_momentum", "optimizer_param_outside_model", "callback_flips_child_layers", "mixed_mode_tree_before_call",
-              "callback_grows_loader_between_epochs", "fault_in_val_criterion", "fault_in_epoch_cb", "fault_in_line", "fault_in_test"]
+              "callback_grows_loader_between_epochs", "fault_in_val_criterion", "fault_in_epoch_cb", "fault_in_line", "fault_in_test",
+              "evaluator_history", "evaluator_history_over_32767_samples", "evaluator_reset_mid_history", "evaluator_second_epoch"]
     RULE = ("one run = one trainer configuration (model layers, loss, optimizer, evaluator mode, loaders, callbacks) and 1-3 fit/test calls, "
             "optionally with an injected fault followed by a fault-free fit; distinct = (epochs, train batches, val batches, evaluator mode, "
             "callbacks, loader kind, model layer kinds, call sequence); non-trivial = at least one optimisation step was checked")
@@ -285,6 +286,26 @@ class TrainSim(Sim):
                     ev["fault"] = {"where": "line", "kind": rng.choice(["alloc", "interrupt", "exit"]), "at": int(10 ** rng.uniform(0, 3.5))}
                 return ev
             return {"k": "fit", "epochs": rng.choice([1, 1, 2]), "fault": None}
+        if not getattr(st, "evalhist_done", False):
+            st.evalhist_done = True
+            if rng.random() < 0.35:
+                # the Evaluator driven directly (a hand-written loop): step/compute/reset in any order; a small share of the
+                # histories accumulate more samples between two compute() calls than a 16-bit counter holds
+                big = rng.random() < 0.12
+                ops = []
+                for _ in range(rng.randint(2, 9)):
+                    r = rng.random()
+                    if r < 0.62:
+                        n = rng.choice([9000, 14000, 17000, 21000]) if big and rng.random() < 0.8 else rng.randint(2, 40)
+                        ops.append({"o": "step", "n": n, "seed": rng.randrange(2 ** 31), "p_ok": rng.choice([0.0, 0.3, 0.7, 0.95, 1.0]),
+                                    "prefix": rng.choice([None, None, "val"])})
+                    elif r < 0.9:
+                        ops.append({"o": "compute", "prefix": rng.choice([None, "val"])})
+                    else:
+                        ops.append({"o": "reset"})
+                ops.append({"o": "compute", "prefix": None})
+                return {"k": "evalhist", "mode": rng.choice(["multi-class", "binary", "categorical"]), "c": rng.randint(2, 5),
+                        "cb": rng.choice(["none", "none", "epoch", "step"]), "ops": ops}
         return None
 
     # ------------------------------------------------------------------ events
@@ -496,6 +517,72 @@ class TrainSim(Sim):
                     got = float(hist[pre + "accuracy"][ep])
                     if not abs(got - want) <= 1e-9:
                         st.fail("C20.accuracy", f"epoch {ep + 1}: reported {pre}accuracy {got!r}, fraction of correct predictions under mode {kn['task']!r} is {want!r}")
+
+    def _ev_evalhist(self, st, ev):
+        """Evaluator accuracy = fraction of correct predictions since the last compute()/reset(), for any history of calls"""
+        SG = st.SG
+        mode, c = ev["mode"], ev["c"]
+        seen = {"step": [], "epoch": []}
+        cbs = {}
+        if ev["cb"] == "epoch":
+            cbs["epoch_callback"] = lambda yt, yp: (seen["epoch"].append((len(yt), int((np.asarray(yt) == np.asarray(yp)).sum()))), [("n", len(yt))])[1]
+        if ev["cb"] == "step":
+            cbs["step_callback"] = lambda yt, yp: (seen["step"].append((len(yt), int((np.asarray(yt) == np.asarray(yp)).sum()))), [("n", len(yt))])[1]
+        evaluator = st.must("C20.evaluator_raises", "Evaluator()", lambda: SG.train.Evaluator(mode=mode, **cbs))
+        st.probes["evaluator_history"] += 1
+        ok = tot = n_comp = 0
+        last = None
+        for op in ev["ops"]:
+            if op["o"] == "step":
+                rs = np.random.RandomState(op["seed"])
+                n = op["n"]
+                true = rs.randint(0, 2 if mode == "binary" else c, size=n)
+                hit = rs.random_sample(n) < op["p_ok"]
+                pred = np.where(hit, true, (true + 1 + rs.randint(0, max(1, (2 if mode == "binary" else c) - 1), size=n)) % (2 if mode == "binary" else c))
+                if mode == "binary":
+                    out = np.where(pred == 1, 0.5 + rs.uniform(0.05, 0.5, size=n), 0.5 - rs.uniform(0.05, 0.5, size=n)).astype(np.float32).reshape(n, 1)
+                    lab = true.astype(np.float32).reshape(n, 1)
+                else:
+                    out = rs.uniform(-1.0, 1.0, size=(n, c)).astype(np.float32)
+                    out[np.arange(n), pred] = 2.0 + rs.uniform(0.0, 1.0, size=n).astype(np.float32)
+                    lab = true.astype(np.int64) if mode == "multi-class" else np.eye(c, dtype=np.float32)[true]
+                b_ok, b_n = int((pred == true).sum()), n
+                with quiet():
+                    got = st.must("C20.evaluator_raises", f"Evaluator(mode={mode!r}).step on {n} samples", lambda: evaluator.step(SG.Tensor(lab), SG.Tensor(out), prefix=op["prefix"]))
+                ok += b_ok
+                tot += b_n
+                name = ("val_" if op["prefix"] else "") + "accuracy"
+                d = dict(got)
+                if name not in d or not abs(float(d[name]) - b_ok / b_n) <= 1e-9:
+                    st.fail("C20.accuracy", f"Evaluator(mode={mode!r}).step on a batch of {b_n} samples with {b_ok} correct predictions returned {got!r}, "
+                            f"{name} must be {b_ok / b_n!r}")
+                if ev["cb"] == "step" and (not seen["step"] or seen["step"][-1] != (b_n, b_ok)):
+                    st.fail("C20.accuracy", f"the step callback of the Evaluator was handed {seen['step'][-1:]} (samples, correct), the batch had ({b_n}, {b_ok})")
+                last = "step"
+            elif op["o"] == "reset":
+                st.must("C20.evaluator_raises", "Evaluator.reset()", evaluator.reset)
+                ok = tot = 0
+                st.probes["evaluator_reset_mid_history"] += 1
+                last = "reset"
+            else:
+                if tot == 0:
+                    continue            # 0/0: not asserted
+                if tot > 32767:
+                    st.probes["evaluator_history_over_32767_samples"] += 1
+                with quiet():
+                    got = st.must("C20.evaluator_raises", f"Evaluator(mode={mode!r}).compute() after {tot} samples", lambda: evaluator.compute(prefix=op["prefix"]))
+                name = ("val_" if op["prefix"] else "") + "accuracy"
+                d = dict(got)
+                if name not in d or not abs(float(d[name]) - ok / tot) <= 1e-9:
+                    st.fail("C20.accuracy", f"Evaluator(mode={mode!r}).compute() after {tot} samples with {ok} correct predictions since the last compute()/reset() "
+                            f"returned {got!r}, {name} must be {ok / tot!r}")
+                if ev["cb"] == "epoch" and (not seen["epoch"] or seen["epoch"][-1] != (tot, ok)):
+                    st.fail("C20.accuracy", f"the epoch callback of the Evaluator was handed {seen['epoch'][-1:]} (samples, correct), the epoch had ({tot}, {ok})")
+                if n_comp:
+                    st.probes["evaluator_second_epoch"] += 1
+                n_comp += 1
+                ok = tot = 0
+                last = "compute"
 
     def _accuracy(self, task, evs):
         ok = tot = 0
